@@ -6,7 +6,7 @@ Import ListNotations.
 Open Scope Z_scope.
 
 (* entries of a tree: (key, id, deleted) of every node *)
-Definition ent := (Z * Z * bool)%type.
+Notation ent := (Z * Z * bool)%type (only parsing).
 Definition ekey (e : ent) : Z := fst (fst e).
 Definition eid (e : ent) : Z := snd (fst e).
 Definition edel (e : ent) : bool := snd e.
@@ -570,7 +570,7 @@ Proof.
   assert (Hnd : NoDup (map eid ((k, next, false) :: entsl (roots h)))).
   { simpl. constructor; [exact Hfresh|apply (inv_nodup _ _ I)]. }
   assert (Hlen : hn h + 1 = Z.of_nat (length ((k, next, false) :: entsl (roots h)))).
-  { rewrite (inv_n _ _ I). cbn [length]. rewrite Nat2Z.inj_succ. clear. lia. }
+  { rewrite (inv_n _ _ I). cbn [length]. lia. }
   assert (Habs : forall h', roots h' = ring_add node (roots h) -> Permutation (abs h') ((k, next) :: abs h)).
   { intros h' Hr. unfold abs. rewrite Hr. rewrite P. reflexivity. }
   destruct (minp h) as [m|] eqn:Hm.
@@ -591,4 +591,285 @@ Proof.
     unfold min_ok. simpl. exists node. split; [apply In_ring_add_iff; auto|]. split; [reflexivity|].
     pose proof (inv_min _ _ I) as Hmin. unfold min_ok in Hmin. rewrite Hm in Hmin. rewrite Hmin.
     simpl. constructor; [apply lt_irrefl|constructor].
+Qed.
+
+(* ---- _extract_min at the level of the invariant (the root u may carry the deleted flag: remove) ---- *)
+Lemma roots_ne_id z l (E : list ent) : ~ In z (map eid E) -> (forall r, In r l -> In (nent r) E) ->
+  Forall (fun r => nid r <> z) l.
+Proof.
+  intros Hn Hsub. apply Forall_forall. intros r Hr Heq. apply Hn.
+  apply in_map_iff. exists (nent r). split; auto.
+Qed.
+
+Lemma extract_inv h next z u p q :
+  minp h = Some z -> roots h = p ++ u :: q -> nid u = z ->
+  NoDup (map eid (entsl (roots h))) -> Forall hord (roots h) ->
+  hn h = Z.of_nat (length (entsl (roots h))) ->
+  Forall (fun e => edel e = false) (entsl (p ++ q ++ nkids u)) ->
+  Forall (fun e => 0 <= eid e < next) (entsl (roots h)) -> 0 <= next ->
+  exists h', extract_min lt h = XOk u h' /\ Inv h' next /\
+             Permutation (entsl (roots h)) (nent u :: entsl (roots h')).
+Proof.
+  intros Hm Hr Hu Hnd Hh Hn Hc Hi Hnx.
+  assert (PE : Permutation (entsl (roots h)) (nent u :: entsl (p ++ q ++ nkids u))).
+  { rewrite Hr. ex. rewrite (ents_unfold u). perm. }
+  assert (Hnd' : NoDup (map eid (nent u :: entsl (p ++ q ++ nkids u)))).
+  { eapply Permutation_NoDup; [apply Permutation_map; apply PE|auto]. }
+  simpl in Hnd'. inversion Hnd' as [|? ? Hz Hnd'']; subst.
+  change (eid (nent u)) with (nid u) in Hz.
+  rewrite Hr in Hh. fa. destruct Hh as [Hp [Hhu Hq]]. destruct (hord_inv u Hhu) as [_ Hk].
+  destruct (extract_min_spec h (nid u) p u q) as [h' [A [B [C [D E]]]]]; auto.
+  - eapply roots_ne_id; [apply Hz|]. intros r Hin. apply root_ent. apply in_or_app. auto.
+  - eapply roots_ne_id; [apply Hz|]. intros r Hin. apply root_ent. apply in_or_app. right. apply in_or_app. auto.
+  - apply clean_G; auto. fa. auto.
+  - exists h'. split; auto. split; [|rewrite PE, B; reflexivity].
+    eapply Inv_intro; eauto.
+    + rewrite D, Hn. rewrite (Permutation_length PE). cbn [length]. lia.
+    + assert (Hi' := Permutation_Forall PE Hi). inversion Hi'; auto.
+Qed.
+
+Lemma find_root_in r : forall l, In r l -> exists u, find_root (nid r) l = Some u.
+Proof.
+  induction l as [|a l IH]; simpl; intros H; [tauto|].
+  destruct (Z.eqb (nid a) (nid r)) eqn:E; [eauto|].
+  destruct H as [->|H]; auto. rewrite Z.eqb_refl in E. discriminate.
+Qed.
+
+Lemma drop_deleted_inv h next f : Inv h next -> drop_deleted lt (S f) h = (h, false).
+Proof.
+  intros I. simpl. destruct (minp h) as [m|] eqn:Hm; auto.
+  destruct (min_lookup h next m I Hm) as [mn [r [Hf [_ [_ [_ [Hd _]]]]]]]. rewrite Hf, Hd. reflexivity.
+Qed.
+
+Lemma abs_min h k : Forall (fun e => lt (ekey e) k = false) (entsl (roots h)) ->
+  forall y, In y (abs h) -> lt (fst y) k = false.
+Proof.
+  intros H y Hy. unfold abs in Hy. apply in_map_iff in Hy. destruct Hy as [e [<- He]].
+  rewrite Forall_forall in H. apply (H e He).
+Qed.
+
+(* ---- peek ---- *)
+Lemma peek_spec h next : Inv h next ->
+  (roots h = [] /\ peek lt h = (h, RExc AttributeError, false)) \/
+  (exists m k, peek lt h = (h, RItem m k, false) /\ In (k, m) (abs h) /\
+               forall y, In y (abs h) -> lt (fst y) k = false).
+Proof.
+  intros I. unfold peek. rewrite (drop_deleted_inv h next _ I).
+  destruct (minp h) as [m|] eqn:Hm.
+  - right. destruct (min_lookup h next m I Hm) as [mn [r [Hf [Hr [Hid [Hk [Hd [_ Hall]]]]]]]].
+    rewrite Hf. exists m, (nkey mn). split; auto. split.
+    + unfold abs. apply in_map_iff. exists (nent r). split; [unfold nent; simpl; congruence|].
+      apply root_ent; auto.
+    + apply abs_min. rewrite Hk. auto.
+  - left. pose proof (inv_min _ _ I) as Hmin. unfold min_ok in Hmin. rewrite Hm in Hmin. auto.
+Qed.
+
+(* ---- pop ---- *)
+Lemma pop_spec h next : Inv h next ->
+  (roots h = [] /\ pop lt h = (h, RExc AttributeError, false)) \/
+  (exists h' m k, pop lt h = (h', RItem m k, false) /\ Inv h' next /\
+                  Permutation (abs h) ((k, m) :: abs h') /\
+                  forall y, In y (abs h) -> lt (fst y) k = false).
+Proof.
+  intros I. unfold pop. rewrite (drop_deleted_inv h next _ I).
+  destruct (minp h) as [m|] eqn:Hm.
+  - right. destruct (min_lookup h next m I Hm) as [mn [r [Hf [Hr [Hid [Hk [Hd [Hdr Hall]]]]]]]].
+    destruct (find_root_in r _ Hr) as [u Hu]. rewrite Hid in Hu.
+    destruct (find_root_split _ _ _ Hu) as [p [q [Hroots [Hp Hidu]]]].
+    assert (Eu : nent u = nent r).
+    { eapply nodup_ent; [apply (inv_nodup _ _ I)| | |].
+      - rewrite Hroots. apply root_ent. apply in_or_app. right. left. reflexivity.
+      - apply root_ent; auto.
+      - unfold eid, nent. simpl. congruence. }
+    unfold nent in Eu. inversion Eu as [[Ek Ei Ed]].
+    destruct (extract_inv h next m u p q) as [h' [A [B C]]]; auto;
+      try apply (inv_nodup _ _ I); try apply (inv_hord _ _ I); try apply (inv_n _ _ I);
+      try apply (inv_ids _ _ I); try apply (inv_next _ _ I).
+    + pose proof (inv_clean _ _ I) as Hc. rewrite Hroots in Hc. revert Hc. ex. rewrite (ents_unfold u).
+      intros Hc. fa. tauto.
+    + rewrite A. exists h', (nid u), (nkey u). split; auto. split; auto. split.
+      * unfold abs. rewrite C. reflexivity.
+      * apply abs_min. rewrite Ek. auto.
+  - left. pose proof (inv_min _ _ I) as Hmin. unfold min_ok in Hmin. rewrite Hm in Hmin.
+    split; auto. unfold extract_min. rewrite Hm. reflexivity.
+Qed.
+
+(* ---- _cut / _cascading_cut ---- *)
+Section CutProofs.
+Variable x : Z.       (* the node that was modified *)
+Variable k' : Z.      (* its key afterwards *)
+Variable d' : bool.   (* its deleted flag afterwards *)
+Let upd := set_kd k' d'.
+
+(* the recursion over the child ring, as a top-level function *)
+Fixpoint cut_kids (t : hnode) (ks : list hnode) : kres :=
+  match ks with
+  | [] => KNot
+  | c :: r =>
+      if Z.eqb (nid c) x then
+        let c' := upd c in
+        if node_lt lt c' t then KCasc r [set_mark false c'] else KDone (c' :: r) []
+      else
+        match cut_node lt x upd c with
+        | CNot => match cut_kids t r with
+                  | KNot => KNot
+                  | KDone r' cu => KDone (c :: r') cu
+                  | KCasc r' cu => KCasc (c :: r') cu end
+        | CDone c' cu => KDone (c' :: r) cu
+        | CCasc c' cu => if nmark c' then KCasc r (cu ++ [set_mark false c'])
+                         else KDone (set_mark true c' :: r) cu
+        end
+  end.
+
+Lemma cut_node_eq i k m d ks :
+  cut_node lt x upd (HNode i k m d ks) =
+  match cut_kids (HNode i k m d ks) ks with
+  | KNot => CNot
+  | KDone ks' cu => CDone (HNode i k m d ks') cu
+  | KCasc ks' cu => CCasc (HNode i k m d ks') cu end.
+Proof.
+  simpl.
+  match goal with |- match ?F ks with _ => _ end = _ =>
+    assert (E : forall l, F l = cut_kids (HNode i k m d ks) l) end.
+  { induction l as [|c r IH]; [reflexivity|]. simpl. rewrite IH. reflexivity. }
+  rewrite E. reflexivity.
+Qed.
+
+(* x' < the node with entry e, as HeapNode.__lt__ computes it *)
+Definition nlt (e : ent) : bool := (d' && negb (edel e)) || lt k' (ekey e).
+
+Lemma node_lt_nlt c t : node_lt lt (upd c) t = nlt (nent t).
+Proof. destruct c, t. reflexivity. Qed.
+
+Definition cut_post (casc : bool) (before after : list ent) (cu : list hnode) (extra : list ent) : Prop :=
+  exists kx dx E,
+    Permutation before ((kx, x, dx) :: E) /\
+    Permutation (after ++ entsl cu) ((k', x, d') :: E) /\
+    Forall hord cu /\
+    ((casc = false /\ cu = [] /\ exists e, In e (extra ++ E) /\ nlt e = false) \/
+     (exists x' rest, cu = x' :: rest /\ nent x' = (k', x, d'))).
+
+Definition node_spec (t : hnode) : Prop :=
+  match cut_node lt x upd t with
+  | CNot => Forall (fun e => eid e <> x) (entsl (nkids t))
+  | CDone t' cu => cut_post false (ents t) (ents t') cu [] /\ hord t' /\ nent t' = nent t
+  | CCasc t' cu => cut_post true (ents t) (ents t') cu [] /\ hord t' /\ nent t' = nent t
+  end.
+
+Definition kids_post (casc : bool) (t : hnode) (ks ks' cu : list hnode) : Prop :=
+  cut_post casc (entsl ks) (entsl ks') cu [nent t] /\
+  Forall (fun c => lt (nkey c) (nkey t) = false) ks' /\ Forall hord ks'.
+
+Definition kids_spec (t : hnode) (ks : list hnode) : Prop :=
+  match cut_kids t ks with
+  | KNot => Forall (fun e => eid e <> x) (entsl ks)
+  | KDone ks' cu => kids_post false t ks ks' cu
+  | KCasc ks' cu => kids_post true t ks ks' cu
+  end.
+
+Lemma cut_post_weaken before after cu extra :
+  cut_post true before after cu extra -> cut_post false before after cu extra.
+Proof.
+  intros [kx [dx [E [P1 [P2 [Hh [[C _]|R]]]]]]]; [discriminate|].
+  exists kx, dx, E. auto.
+Qed.
+
+Lemma cut_post_frame casc before after cu extra F before' after' extra' :
+  cut_post casc before after cu extra ->
+  Permutation before' (before ++ F) -> Permutation after' (after ++ F) ->
+  (forall e, In e extra -> In e extra' \/ In e F) ->
+  cut_post casc before' after' cu extra'.
+Proof.
+  intros [kx [dx [E [P1 [P2 [Hh D]]]]]] Hb Ha Hex.
+  exists kx, dx, (E ++ F). split; [rewrite Hb, P1; reflexivity|]. split.
+  - rewrite Ha. transitivity ((after ++ entsl cu) ++ F); [perm|rewrite P2; reflexivity].
+  - split; auto. destruct D as [[C [Hc [e [He Hn]]]]|R]; [left|right; auto].
+    split; auto. split; auto. exists e. split; auto.
+    apply in_app_or in He. destruct He as [He|He].
+    + destruct (Hex e He); apply in_or_app; auto. right. apply in_or_app. auto.
+    + apply in_or_app. right. apply in_or_app. auto.
+Qed.
+
+(* the child c' that lost a child was marked: it is cut as well and the cascade goes on *)
+Lemma cut_post_casc before c' cu F before' extra' :
+  cut_post true before (ents c') cu [] -> hord c' ->
+  Permutation before' (before ++ F) ->
+  cut_post true before' F (cu ++ [set_mark false c']) extra'.
+Proof.
+  intros [kx [dx [E [P1 [P2 [Hh D]]]]]] Hc Hb.
+  exists kx, dx, (E ++ F). split; [rewrite Hb, P1; reflexivity|]. split.
+  - ex. rewrite ents_set_mark. simpl. rewrite app_nil_r.
+    transitivity ((ents c' ++ entsl cu) ++ F); [perm|rewrite P2; reflexivity].
+  - split; [apply Forall_app; split; auto; constructor; auto; apply hord_set_mark; auto|].
+    right. destruct D as [[C _]|[x' [rest [-> Hx']]]]; [discriminate|].
+    exists x', (rest ++ [set_mark false c']). auto.
+Qed.
+
+(* every entry with id x has a key that is not below the new key (the key only decreases) *)
+Definition hx (e : ent) : Prop := eid e = x -> lt (ekey e) k' = false.
+
+Lemma ents_upd c : ents (upd c) = (k', nid c, d') :: entsl (nkids c).
+Proof. destruct c; reflexivity. Qed.
+
+Lemma hord_upd c : hord c -> hx (nent c) -> nid c = x -> hord (upd c).
+Proof.
+  intros Hc Hx Hi. destruct c as [i kc m dc kks]. destruct (hord_inv _ Hc) as [A B]. simpl in *.
+  unfold upd, set_kd. simpl. constructor; auto.
+  eapply Forall_impl; [|apply A]. intros kid Hk. simpl in Hk.
+  eapply lt_negtrans; [apply Hk|]. apply (Hx Hi).
+Qed.
+
+Lemma kids_ok t : forall ks,
+  Forall (fun c => hord c -> Forall hx (ents c) -> node_spec c) ks ->
+  Forall (fun c => lt (nkey c) (nkey t) = false) ks -> Forall hord ks -> Forall hx (entsl ks) ->
+  kids_spec t ks.
+Proof.
+  induction ks as [|c r IHr]; intros HI Hk Hh Hx; unfold kids_spec; cbn [cut_kids].
+  - constructor.
+  - inversion HI as [|? ? HIc HIr]; subst. inversion Hk as [|? ? Hkc Hkr]; subst.
+    inversion Hh as [|? ? Hhc Hhr]; subst. rewrite entsl_cons in Hx. apply Forall_app in Hx.
+    destruct Hx as [Hxc Hxr]. specialize (IHr HIr Hkr Hhr Hxr).
+    destruct (Z.eqb (nid c) x) eqn:Ec.
+    + apply Z.eqb_eq in Ec. cbv zeta. rewrite node_lt_nlt.
+      assert (Hxn : hx (nent c)) by (rewrite ents_unfold in Hxc; inversion Hxc; auto).
+      assert (Hu : hord (upd c)) by (apply hord_upd; auto).
+      assert (P1 : Permutation (entsl (c :: r)) ((nkey c, x, ndel c) :: entsl (nkids c) ++ entsl r)).
+      { ex. rewrite (ents_unfold c). unfold nent. rewrite Ec. reflexivity. }
+      destruct (nlt (nent t)) eqn:N.
+      * split; [|split; auto].
+        exists (nkey c), (ndel c), (entsl (nkids c) ++ entsl r). split; auto. split.
+        { ex. rewrite ents_set_mark, ents_upd, Ec. simpl. perm. }
+        split; [constructor; auto; apply hord_set_mark; auto|].
+        right. exists (set_mark false (upd c)), []. split; auto.
+        destruct c; simpl in *. rewrite Ec. reflexivity.
+      * split; [|split].
+        { exists (nkey c), (ndel c), (entsl (nkids c) ++ entsl r). split; auto. split.
+          { ex. rewrite ents_upd, Ec. simpl. perm. }
+          split; [constructor|]. left. split; auto. split; auto.
+          exists (nent t). split; [left; reflexivity|auto]. }
+        { constructor; auto. unfold nlt in N. apply orb_false_iff in N. destruct N as [_ N].
+          destruct c; simpl. exact N. }
+        { constructor; auto. }
+    + specialize (HIc Hhc Hxc). unfold node_spec in HIc.
+      destruct (cut_node lt x upd c) as [|c' cu|c' cu].
+      * (* not below c *)
+        assert (Hnc : Forall (fun e => eid e <> x) (ents c)).
+        { rewrite ents_unfold. constructor; auto. apply Z.eqb_neq in Ec. exact Ec. }
+        unfold kids_spec in IHr. destruct (cut_kids t r) as [|r' cu|r' cu].
+        { rewrite entsl_cons. apply Forall_app. auto. }
+        { destruct IHr as [A [B C]]. split; [|split; auto].
+          eapply cut_post_frame; [apply A| | |]; [ex; apply Permutation_app_comm|ex; apply Permutation_app_comm|auto]. }
+        { destruct IHr as [A [B C]]. split; [|split; auto].
+          eapply cut_post_frame; [apply A| | |]; [ex; apply Permutation_app_comm|ex; apply Permutation_app_comm|auto]. }
+      * destruct HIc as [A [B C]]. inversion C as [[Ck Ci Cd]]. split; [|split].
+        { eapply cut_post_frame; [apply A| | |]; [ex; reflexivity|ex; reflexivity|intros ? []]. }
+        { constructor; auto. rewrite Ck. auto. }
+        { constructor; auto. }
+      * destruct HIc as [A [B C]]. inversion C as [[Ck Ci Cd]]. destruct (nmark c').
+        { split; [|split; auto]. eapply cut_post_casc; [apply A|auto|ex; reflexivity]. }
+        { split; [|split].
+          - apply cut_post_weaken.
+            eapply cut_post_frame; [apply A| | |]; [ex; reflexivity|ex; rewrite ents_set_mark; reflexivity|intros ? []].
+          - constructor; auto. rewrite nkey_set_mark, Ck. auto.
+          - constructor; auto. apply hord_set_mark; auto. }
 Qed.
